@@ -33,6 +33,8 @@ func (impl Implementation) Dgebd2(m, n int, a []float64, lda int, d, e, tauQ, ta
 	}
 
 	switch {
+	case len(a) < (m-1)*lda+n:
+		panic(shortA)
 	case len(d) < minmn:
 		panic(shortD)
 	case len(e) < minmn-1:
